@@ -372,3 +372,35 @@ def text_digits(ai: int, bi: int, cached: bool) -> None:
         assert is_dec, "%r returned a %s, not a Decimal: the product / power was not computed in Decimal arithmetic" % (text, rtype)
         assert nd <= max(28, max(_digits(a), _digits(b)) + 1), "%r returned %d significant digits" % (text, nd)
     hlib.done()
+
+
+POW_BASE = [2, 3, 7, 10, -3, 123456789]
+POW_EXP = [2100000, 3400000, 4000001]
+
+
+def power_overflow(bi: int, ei: int, short: bool) -> None:
+    """
+    pre: 0 <= bi < 6 and 0 <= ei < 3
+    post: True
+    """
+    # host ints whose power lies beyond the decimal exponent range: an arithmetic error (or a 28-digit Decimal), never
+    # an exact million-digit integer
+    hlib.enter(locals())
+    bi, ei = hlib.concrete(bi, 0, 5), hlib.concrete(ei, 0, 2)
+    short = True if short else False
+    with hlib.native():
+        a, b = POW_BASE[bi], POW_EXP[ei]
+        raised, r = None, None
+        try:
+            if short:
+                host = {'x': a}
+                ShortOp('x', '**=', Stub([], 0, b)).eval(mkstate(0, 100, host=host)) if '**=' in getattr(ShortOp, 'OPS', ['**=']) else None
+                r = host['x']
+            else:
+                r = BinOp('**', Stub([], 0, a), Stub([], 1, b)).eval(mkstate(0, 100))
+        except Exception as e:
+            raised = e
+        nd = _digits(r) if raised is None and not isinstance(r, bool) else 0
+        unchanged = short and raised is None and r is a
+    assert raised is not None or unchanged or nd <= 28, "%d ** %d on host ints returned a number of %d significant digits" % (a, b, nd)
+    hlib.done()
